@@ -182,12 +182,12 @@ def run(ctx):
     check_wide(ctx, seed)
     # hand-made documents beyond the bounds (deep nesting, two join groups of one spine in one row, five and more sub-spines)
     big = Acc()
-    for h, seq, sd in [(['**kern', '**kern'], ['d', 'S0', 'S0', 'S0', 'S0', 'd', 'Z0', 'd', 'S3', 'd', 'J0', 'J0', 'd'], seed + 3),
+    from .. import docspace as D
+    for h, seq, sd in D.huge_docs(seed + 6, headers=(('**kern', '**text'), ('**text', '**kern', '**kern'))) + [(['**kern', '**kern'], ['d', 'S0', 'S0', 'S0', 'S0', 'd', 'Z0', 'd', 'S3', 'd', 'J0', 'J0', 'd'], seed + 3),
                        (['**kern', '**text', '**kern'], ['d', 'S2', 'S2', 'S2', 'S2', 'S2', 'd', 'W3', 'd', 'J2', 'd', 'J2', 'd'], seed + 4),
                        (['**kern', '**text', '**kern'], ['k', 'd', 'S0', 'S0', 'S0', 'd', 'S3', 'd', 'Y0', 'd', 'J0', 'J0', 'd', 'X1', 'd', 'b', 'S2', 'S3', 'd', 'J2', 'J2', 'd'], seed)]:
         mm = X.seq_model(h, seq, sd, cap=16)
-        hist = [[c.spec for c in r] for r in mm.crows()[1:]]
-        check_doc(big, h, hist[:-1] if mm.width() == 0 else hist)
+        check_doc(big, h, D.hist_of(mm))
     ctx.merge(big)
     ctx.pmap(_job, jobs, chunksize=1)
 
